@@ -45,9 +45,23 @@ def annotation(f, mid):
     }[k]
 
 
-def source(m):
+def annotation_nofuture(f, mid):
+    """The same annotations for a module WITHOUT `from __future__ import annotations`: references to classes of the model are
+    string forward references nested inside the wrapper (Optional["K"], List["K"], ...) or bare strings."""
+    k, t = f["k"], f["t"]
+    ann, default = annotation(f, mid)
+    if t != "-":
+        T = cname(t, mid)
+        ann = ann.replace(T, f'"{T}"')
+    return ann, default
+
+
+def source(m, future=True):
     mid = model_id(m)
-    out = [HEADER]
+    if not future:
+        mid = mid + "nf"
+    out = [HEADER if future else HEADER.replace("from __future__ import annotations\n", "")]
+    ann_of = annotation if future else annotation_nofuture
     for c in ("K1", "K2", "K3"):
         base = {"K1": "-", "K2": m["b2"], "K3": m["b3"]}[c]
         fields = m["f" + c[1]]
@@ -56,7 +70,7 @@ def source(m):
         if not fields:
             out.append("    pass\n")
         for i, f in enumerate(fields, 1):
-            ann, default = annotation(f, mid)
+            ann, default = ann_of(f, mid)
             name = ("_" if f["k"] == "priv" else "") + f"f{i}{SUFFIX[c]}"
             out.append(f"    {name}: {ann} = {default}\n")
         out.append("\n\n")
